@@ -7,14 +7,20 @@ import json, os, re, shutil, subprocess, sys, glob
 VERIF = os.path.dirname(os.path.dirname(os.path.abspath(__file__)))
 def main():
     items = sys.argv[1:]
+    rnd = "out3"
+    if "--round" in items:
+        rnd = items[items.index("--round") + 1]
+        del items[items.index("--round"):items.index("--round") + 2]
+    tagr = "" if rnd == "out3" else "r" + rnd[3:]
     if not items:
-        for d in sorted(glob.glob("/tmp/mut/C*/out3/m*")):
+        for d in sorted(glob.glob("/tmp/mut/C*/%s/m*" % rnd)):
             items.append("%s:%s" % (d.split("/")[3], d.split("/")[-1][1:]))
     for it in items:
         p, n = it.split(":")
-        src = "/tmp/mut/%s/out3/m%s" % (p, n)
+        src = "/tmp/mut/%s/%s/m%s" % (p, rnd, n)
         if not os.path.exists(os.path.join(src, "patch.diff")):
             continue
+        n = tagr + n
         dst = os.path.join(VERIF, "variants", "%s-v%s" % (p, n))
         os.makedirs(dst, exist_ok=True)
         shutil.copy(os.path.join(src, "patch.diff"), os.path.join(dst, "patch.diff"))
